@@ -182,6 +182,9 @@ def run(chk, facts):
                         why_u = why_u or f"{[x[1] + ('?' if x[2] else '') for x in l_]} | {[x[1] + ('?' if x[2] else '') for x in r_]} gives {[x[1] + ('?' if x[2] else '') for x in (got_[1] if isinstance(got_, tuple) else [])]}"
         except NoEval as ex:
             ok, why_u = False, f"could not be evaluated ({ex})"
+        unc_u = ev_u.uncovered()
+        chk.ob("R-C06-3", "union:fold-covers-every-branch", not unc_u, f"the case table reaches every branch of Name::union and its helpers ({len(ev_u.cov)} branch outcomes)" if not unc_u else
+               f"the case table does not reach {len(unc_u)} branch(es), e.g. {unc_u[0]}: what the union does there is not decided", facts.loc_of(un[0]))
         chk.ob("R-C06-3", "union-with-None", ok, "a union that contains None (and something else) becomes the other members made nullable" if ok else
                f"Name::union no longer turns `T | None` into `T?`: {why_u}", facts.loc_of(un[0]))
     except AnchorError as e:
